@@ -315,6 +315,9 @@ func (m *Machine) Explore(pkgPath, entry string) (*RunResult, error) {
 				mu.Unlock()
 
 				if s.Dead {
+					if progress {
+						fmt.Fprintf(os.Stderr, "SOLVER-RESTART after dead solver\n")
+					}
 					ns, err := sym.NewSolver(m.Cfg.Solver, m.Cfg.TimeoutMs)
 					if err == nil {
 						ns.Queries, ns.Sat, ns.Unsat, ns.Unknown, ns.Errors, ns.Time = s.Queries, s.Sat, s.Unsat, s.Unknown, s.Errors, s.Time
@@ -322,11 +325,19 @@ func (m *Machine) Explore(pkgPath, entry string) (*RunResult, error) {
 						s = ns
 					}
 				}
+				tp := time.Now()
+				q0 := s.Queries
 				res := m.runPath(s, fn, prefix)
+				if progress && time.Since(tp) > time.Second {
+					fmt.Fprintf(os.Stderr, "SLOWPATH %.1fs outcome=%s steps=%d decisions=%d queries=%d prefix=%d detail=%s\n", time.Since(tp).Seconds(), res.Outcome, res.Steps, res.Decisions, s.Queries-q0, len(prefix), clip(res.Detail))
+				}
 
 				mu.Lock()
 				inflight--
 				m.merge(rr, res)
+				if progress && rr.Paths%500 == 0 {
+					fmt.Fprintf(os.Stderr, "PROGRESS paths=%d queue=%d outcomes=%v last=%s/%d steps\n", rr.Paths, len(queue), rr.Outcomes, res.Outcome, res.Steps)
+				}
 				queue = append(queue, res.Forks...)
 				if m.Cfg.MaxPaths > 0 && rr.Paths >= m.Cfg.MaxPaths && (len(queue) > 0 || inflight > 0) {
 					rr.Truncated = true
